@@ -27,6 +27,8 @@ var badJSON = []string{
 	`{"type":"Polygon","coordinates":[[[0,0],[1,1]]]}`, `{"type":"Feature"}`, `[1,2]`,
 }
 
+var oddPaths = []string{"a*", "#", "x.#(a=1).b", "@this", "a|b", "a?", "arr.#", "*", "a.*", "properties.*", "@reverse", "a.#(b>1)#"}
+
 var badNumbers = []string{"abc", "", "1e", "--1", "0x10", "1,5", " 1", "one"}
 
 func isNumeric(s string) bool {
@@ -41,7 +43,7 @@ func mutate(t *rapid.T, cmd []string, freshKeys []string) ([]string, string) {
 	out := append([]string(nil), cmd...)
 	op := rapid.SampledFrom([]string{
 		"drop-last", "drop-any", "append-junk", "dup-arg", "bad-number", "empty-path",
-		"bad-object", "bad-hash", "bad-option", "only-name", "empty-arg",
+		"bad-object", "bad-hash", "bad-option", "only-name", "empty-arg", "odd-path",
 	}).Draw(t, "mutop")
 	switch op {
 	case "drop-last":
@@ -81,6 +83,11 @@ func mutate(t *rapid.T, cmd []string, freshKeys []string) ([]string, string) {
 		default:
 			out = []string{"JSET", pickKey(t, cmd), "id1", "", rapid.SampledFrom([]string{"v", "1", `{"a":1}`}).Draw(t, "jv")}
 		}
+	case "odd-path":
+		// paths with wildcards, queries and modifiers: sjson sets them only when they
+		// select something, otherwise nothing may be written and the reply must say so
+		out = []string{"JSET", pickKey(t, cmd), rapid.SampledFrom([]string{"id1", "id2", "newid"}).Draw(t, "oddid"),
+			rapid.SampledFrom(oddPaths).Draw(t, "oddpath"), rapid.SampledFrom([]string{"v", "1", `{"a":1}`}).Draw(t, "jv")}
 	case "bad-object":
 		out = []string{"SET", pickKey(t, cmd), "id1", "OBJECT", rapid.SampledFrom(badJSON).Draw(t, "badjson")}
 		if rapid.Bool().Draw(t, "withfield") {
@@ -203,6 +210,16 @@ func runErrProgram(t failer, c *ev.Collector, p errProgram) (errs int, freshErrs
 				if len(cmd) > 1 && !contains(baseKeys, cmd[1]) {
 					freshErrs++
 				}
+			}
+		}
+		// an acknowledged JSET reads back: JGET of the same path is not nil
+		// (appending and forced-key paths, -1 and :n, do not name what they wrote)
+		// (RAW values are taken as they come and need not be JSON)
+		if strings.ToLower(cmd[0]) == "jset" && len(cmd) == 5 && !negative(v) &&
+			!strings.Contains(cmd[3], "-1") && !strings.Contains(cmd[3], ":") {
+			if g, err := cResp.Do("JGET", cmd[1], cmd[2], cmd[3]); err == nil && g.Null {
+				c.Fail(t, "errors:jset:ok-but-nothing-written",
+					fmt.Sprintf("step %d %s replied %s but JGET of that path is nil", i, t38.CmdString(cmd), v), p)
 			}
 		}
 		// a collection exists iff it holds at least one object
